@@ -650,6 +650,7 @@ func init() {
 		return fr.i.b.Ite(args[0].(*Term), args[1].(*Term), args[2].(*Term))
 	}
 	vndIntrinsics["vndIteU64"] = vndIntrinsics["vndIteInt"]
+	vndIntrinsics["vndIteF64"] = vndIntrinsics["vndIteInt"]
 	vndIntrinsics["vndHashUninterpreted"] = func(fr *frame, args []value) value {
 		fr.i.ex.hashUF = args[0].(*Term).ConstBool()
 		return nil
